@@ -45,6 +45,11 @@ fn episode(ctx: &Ctx, case: u64, out: &mut Out) -> Result<(), (Fail, String)> {
     let mut e = Eng::new(r, &dir, conf, thr, keys, true);
     e.huge_ok = case % 8 == 5;
     // an eighth of the episodes on a file system that completes some writes only partly
+    // another eighth: now and then a set or delete in which one call on a data file fails (half of
+    // them after a part of the entry was written); the key may then be in either state until it is
+    // written again, every other key and every later operation as the map says
+    let faulty = case % 8 == 3;
+    let mut failing = 0u64;
     let short = if case % 8 == 6 { Some(crate::shim::short_env(&dir, ctx.seed ^ case)) } else { None };
     let res = (|| -> Result<(), Fail> {
         e.open()?;
@@ -58,6 +63,10 @@ fn episode(ctx: &Ctx, case: u64, out: &mut Out) -> Result<(), (Fail, String)> {
                     let d = e.st().dump();
                     e.f.reads_from_merge_output += d.keydir.iter().filter(|k| outs.contains(&k.fileid)).count() as u64;
                 }
+            } else if faulty && e.r.chance(1, 25) {
+                if e.do_faulty_op()? {
+                    failing += 1;
+                }
             } else {
                 e.random_op()?;
             }
@@ -69,6 +78,10 @@ fn episode(ctx: &Ctx, case: u64, out: &mut Out) -> Result<(), (Fail, String)> {
     if let Some(s) = short {
         out.count("episodes_with_short_writes", 1);
         out.count("short_writes", s.done());
+    }
+    if faulty {
+        out.count("episodes_with_failing_operations", 1);
+        out.count("operations_with_one_failing_call", failing);
     }
     out.evaluations += 1;
     out.count("ops", e.trace.len() as u64);
